@@ -105,6 +105,8 @@ def run(ck: Check):
             for atom in ("line", "symbol", "char"):
                 for v in ("Y" * 80, "Y" + "NY" * 40, "YN" + "Y" * 60):
                     ex5.one(strategy, {}, None, data, v, atom=atom, load=True, stream="run-keeps-markers", model=False, cap=200)
+    from scale import big_frame_and_subdeletion
+    big_frame_and_subdeletion(ck, frame=True, sub=False)
     # the same object loading a second file (a library user, a second pass) splits it like a fresh object
     from props.c06 import reload_same_object
     reload_same_object(ck)
